@@ -21,7 +21,8 @@
 From Coq Require Import List Ascii String Bool PrimFloat Permutation.
 From Verif Require Import Base.Result Base.Str Base.Sexp Base.PyDict Base.Float Model.Tokenizer Model.Domain Model.State
   Model.Trajectory Spec.Pddl Spec.State
-  Proofs.C14_Text Proofs.C14_Spec Proofs.C14_Eq Proofs.C14_Main Proofs.C14_Serialize Proofs.C14_Examples Proofs.C10_State.
+  Proofs.C14_Text Proofs.C14_Spec Proofs.C14_Eq Proofs.C14_Main Proofs.C14_Serialize Proofs.C14_Sorted Proofs.C14_Examples
+  Proofs.C10_State Proofs.C10_Sorted.
 From Verif Require Model.Store Proofs.C07_Sep Proofs.C14_Store.
 Import ListNotations.
 
@@ -102,7 +103,7 @@ Proof. exact state_copy_id. Qed.
 Theorem C14_copy : forall (num_text : float -> string) s,
   state_eq num_text (state_copy s) s = true /\ state_eq num_text s (state_copy s) = true /\
   serialize num_text (state_copy s) = serialize num_text s.
-Proof. exact state_copy_props. Qed.
+Proof. exact state_copy_props_sorted. Qed.
 
 (* independence in the store model of C07 (Model/Store.v: the footprint of State.copy): in a store where every state
    owns its cells, the copy's dict, set and value cells lie in a fresh region -- it shares no cell with any state that
@@ -115,16 +116,25 @@ Theorem C14_copy_independent : forall (m : Store.mstate) s src,
 Proof. exact C14_Store.copy_independent. Qed.
 
 (* ---------- serialization ---------- *)
+(* State.serialize prints the facts of every predicate group in sorted order of their texts (3ad2e15): it is the
+   in-order printer applied to the state with every group sorted, and sorting only permutes the groups *)
+Theorem C14_serialize_sorted : forall num_text s,
+  serialize num_text s = serialize_in_order num_text (sort_facts s) /\
+  Permutation (all_preds (sort_facts s)) (all_preds s) /\ st_fluents (sort_facts s) = st_fluents s /\
+  State_same (den (sort_facts s)) (den s).
+Proof. intros num_text s. exact (conj (serialize_sorted num_text s) (conj (all_preds_sorted s) (conj eq_refl (den_sorted s)))). Qed.
+
 (* the library's reader (C11) returns the token tree of the state ... *)
 Theorem C14_serialize_parse : forall num_text m s,
-  state_ok s = true -> nums_clean num_text s -> parse m (s2t (serialize num_text s)) = Ok (state_sexp num_text s).
-Proof. exact parse_serialize. Qed.
+  state_ok s = true -> nums_clean num_text s ->
+  parse m (s2t (serialize num_text s)) = Ok (state_sexp num_text (sort_facts s)).
+Proof. exact parse_serialize_sorted. Qed.
 
 (* ... whose reading is the state *)
 Theorem C14_serialize_reads_back : forall num_text parse_num m s,
   state_ok s = true -> nums_clean num_text s -> (forall x, In x (values s) -> num_ok num_text parse_num x) ->
   exists st, read_text parse_num m (serialize num_text s) = Some (st_init s, st) /\ State_same st (den s).
-Proof. exact serialize_reads_back. Qed.
+Proof. exact serialize_reads_back_sorted. Qed.
 
 (* equal states serialize to texts that read back as the same state, unequal states never do *)
 Theorem C14_serialize : forall num_text parse_num m s t,
@@ -133,7 +143,22 @@ Theorem C14_serialize : forall num_text parse_num m s t,
   exists a b, read_text parse_num m (serialize num_text s) = Some (st_init s, a) /\
               read_text parse_num m (serialize num_text t) = Some (st_init t, b) /\
               (State_same a b <-> state_eq num_text s t = true).
-Proof. exact serialize_injective. Qed.
+Proof. exact serialize_injective_sorted. Qed.
+
+(* stronger since the sort: the TEXT does not depend on the order inside the groups -- states with the same flag, the
+   same fluent texts in the same order and the same groups in the same order, each group holding the same fact texts in
+   any order, serialize to the identical text (so do, in particular, a state and any rebuild of its sets) *)
+Theorem C14_serialize_text_equal : forall num_text s t,
+  st_init s = st_init t -> fluent_texts num_text s = fluent_texts num_text t ->
+  groups_permuted (st_preds s) (st_preds t) ->
+  serialize num_text s = serialize num_text t.
+Proof. exact serialize_text_equal. Qed.
+
+Theorem C14_serialize_set_order : forall num_text s t,
+  st_init s = st_init t -> st_fluents s = st_fluents t ->
+  Forall2 (fun g g' => Permutation (snd g) (snd g')) (st_preds s) (st_preds t) ->
+  serialize num_text s = serialize num_text t.
+Proof. exact serialize_set_order. Qed.
 
 (* ---------- the library's own reader of a state (TrajectoryParser.parse_state) ---------- *)
 Theorem C14_library_readback_partial : forall dom num_text parse_num problem m s,
@@ -141,7 +166,7 @@ Theorem C14_library_readback_partial : forall dom num_text parse_num problem m s
   parseable dom problem s ->
   exists e s', parse m (s2t (serialize num_text s)) = Ok (SList (Atom (head_tok s) :: e)) /\
                parse_state dom parse_num problem e = Ok s' /\ State_same (den s') (den s).
-Proof. exact library_readback. Qed.
+Proof. exact library_readback_sorted. Qed.
 
 Theorem C14_library_readback_refuted :
   exists dom s e s', state_ok s = true /\ nums_clean ex_num_text s /\
@@ -177,7 +202,10 @@ Print Assumptions C14_eq_ieee_witness.
 Print Assumptions C14_copy_value.
 Print Assumptions C14_copy.
 Print Assumptions C14_copy_independent.
+Print Assumptions C14_serialize_sorted.
 Print Assumptions C14_serialize_parse.
+Print Assumptions C14_serialize_text_equal.
+Print Assumptions C14_serialize_set_order.
 Print Assumptions C14_serialize_reads_back.
 Print Assumptions C14_serialize.
 Print Assumptions C14_library_readback_partial.
